@@ -56,10 +56,12 @@ end
 def mapOff (m : List (Nat × Nat)) (p : Nat) : Option Nat := (m.find? (·.1 == p)).map (·.2)
 
 mutual
-  /-- Equal in everything but the parse states recorded in the nodes (`parse_state`, `first_leaf.parse_state`)? -/
+  /-- Equal in everything but the parse states recorded in the nodes (`parse_state`, `first_leaf.parse_state`)
+  and the fragility marks that go with a `TS_TREE_STATE_NONE` state (`fragile_left/right`)? -/
   def sameModuloStates : Tree → Tree → Bool
     | .mk da ka, .mk db kb =>
-      sameData { da with parseState := 0, firstLeafState := 0 } { db with parseState := 0, firstLeafState := 0 } &&
+      sameData { da with parseState := 0, firstLeafState := 0, fragileLeft := false, fragileRight := false }
+        { db with parseState := 0, firstLeafState := 0, fragileLeft := false, fragileRight := false } &&
       sameModuloStatesL ka kb
   def sameModuloStatesL : List Tree → List Tree → Bool
     | [], [] => true
